@@ -17,6 +17,7 @@ CLOSED = {
     'transl', 'transl2', 'trinterp', 'trinterp2', 'r2q', 'rand', 'matrix_power', 'unit', 'xyt2tr', 'rodrigues', 'qqmul',
     'conj', 'slerp', 'lift3', 'eye', 'identity', '_twist', 'trlog', 'trlog2',
 }
+ARG_CLOSED = {'matrix_power'}
 FIRST_ORDER = {'delta2tr': 'first-order motion I + skewa(d): approximate by definition (documented)'}
 POSE_CLASSES = {'SO2', 'SE2', 'SO3', 'SE3', 'UnitQuaternion'}
 
@@ -42,6 +43,14 @@ def closed_expr(fi, e, member_vars, depth=0):
     if isinstance(e, ast.Call):
         fn = e.func
         if isinstance(fn, ast.Name):
+            if fn.id in ARG_CLOSED and e.args:
+                # closed only when applied to a member
+                r = closed_expr(fi, e.args[0], member_vars, depth + 1)
+                if r[0] is False:
+                    return r
+                if r[0]:
+                    return (True, '%s of a member' % fn.id)
+                return (None, '%s of %s' % (fn.id, r[1]))
             if fn.id in CLOSED:
                 return (True, 'closed producer ' + fn.id)
             if fn.id in FIRST_ORDER:
@@ -71,9 +80,25 @@ def closed_expr(fi, e, member_vars, depth=0):
             return (None, a[1] if a[0] is None else b[1])
         if isinstance(e.op, (ast.Add, ast.Sub, ast.Mult, ast.Div)):
             return (False, 'element-wise %s (%s) is not a group operation' % (type(e.op).__name__, src(e, 40)))
+    if isinstance(e, ast.IfExp):
+        a = closed_expr(fi, e.body, member_vars, depth + 1)
+        b = closed_expr(fi, e.orelse, member_vars, depth + 1)
+        if a[0] is False or b[0] is False:
+            return a if a[0] is False else b
+        if a[0] and b[0]:
+            return (True, 'both alternatives closed')
+        return a if a[0] is None else b
     if isinstance(e, ast.Attribute):
         if e.attr == 'T':
-            return closed_expr(fi, e.value, member_vars, depth + 1)
+            inner = closed_expr(fi, e.value, member_vars, depth + 1)
+            if inner[0]:
+                # the transpose of a member is a member only for rotation matrices: a homogeneous matrix [[R, t],[0, 1]]
+                # transposes to [[R^T, 0],[t^T, 1]], which is not in SE(n)
+                hom = _homogeneous_receivers(fi)
+                if hom:
+                    return (False, 'transpose of a member value in a method whose receiver can be %s: the transpose of a '
+                            'homogeneous matrix is not its inverse and not a member of SE(n)' % '/'.join(hom))
+            return inner
         if e.attr in ('A', '_A', 'R') and isinstance(e.value, ast.Name) and (e.value.id in fi.self_names() or e.value.id in member_vars):
             return (True, 'stored value of a member')
     if isinstance(e, ast.Name) and e.id in member_vars:
@@ -89,6 +114,21 @@ def closed_expr(fi, e, member_vars, depth=0):
             return (True, 'half-angle unit quaternion [cos(a), sin(a) on one axis]')
         return (False, 'literal 4-vector that is not of the unit form [cos a, sin a e_i]')
     return (None, 'expression ' + src(e, 40))
+
+
+HOMOGENEOUS = ('SE2', 'SE3')
+
+
+def _homogeneous_receivers(fi):
+    """names of the SE(n) classes whose instances can be the receiver of the method fi belongs to (MRO lookup)"""
+    from .r1_resolve import receiver_classes
+    from ..model import program
+    f = fi.f
+    while f is not None and f.cls is None:
+        f = f.parent
+    if f is None:
+        return []
+    return sorted(k.name for k in receiver_classes(program(), f) if k.name in HOMOGENEOUS)
 
 
 def check_unchecked_sites(run, rule='R15c'):
